@@ -68,6 +68,9 @@ class ColumnFormat:
     def __repr__(self):
         return f"{self.__class__.__name__}: '{self.specifier}'"
 
+    def copy(self) -> "ColumnFormat":
+        return ColumnFormat(self.specifier)
+
 
 # See https://docs.scipy.org/doc/numpy/reference/generated/numpy.dtype.html
 _unit_from_dtype_kind = {
